@@ -1,7 +1,7 @@
 (* C01 -- Encoded messages are the exact RFC 7252 wire image and decode back unchanged.
    Only statements; every proof is an [exact] of a lemma from proofs/. *)
 From CoapV Require Import Base Header Packet WireSpec Encode Decode PacketOps Suite01
-  proofs.PWire proofs.PEnc proofs.PDec proofs.P01.
+  proofs.PWire proofs.PEnc proofs.PDec proofs.P01 proofs.P01b.
 
 (* every packet state the API can hold (pkt_wf: header byte consistent with the token,
    token <= 8 bytes, ascending option map, values <= 65804 bytes) serialises to exactly
@@ -36,6 +36,15 @@ Theorem C01_api_roundtrip : forall ops, ops_wf ops = true ->
     from_bytes lenient bs = Ok p' /\ view p' = abs p.
 Proof. exact api_roundtrip. Qed.
 Print Assumptions C01_api_roundtrip.
+
+(* ... and that state denotes exactly the message a last-writer-wins reading of the calls describes: header fields
+   by their last setter, options as the insertion-ordered multiset (set_option replaces, clear_option removes)
+   stably sorted by number -- so the order of setter calls is immaterial and cleared-and-re-added options behave
+   as specified *)
+Theorem C01_api_denotes_spec : forall ops p, ops_wf ops = true -> run_ops packet_new ops = Ok p ->
+  abs p = amsg_of_smsg (spec_run ops).
+Proof. exact api_denotes_spec. Qed.
+Print Assumptions C01_api_denotes_spec.
 
 (* non-vacuity: No-Response (258) as first option, a 300-byte value, version 2 *)
 Example C01_example :
